@@ -2754,7 +2754,7 @@ func randSplit(rng *rand.Rand, n int) []int {
 // ---------------------------------------------------------------------------
 
 func runC03(c *core.Ctx) {
-	c.Res.Rule = "catalogue of 129 entries = 88 compiled struct types under SchemaOf(T) or one or more explicit schemas: (1) required / `optional` scalars of every kind, pointers, repeated and LIST slices, nested lists, slices and maps of structs, embedded and nested structs, optional groups with repeated fields and vice versa, 3 levels of nesting; (2) every struct tag option of schema.go makeNodeOf: int(n)/uint(n) narrower, equal, wider and of the other signedness than the Go type, uintptr, decimal on int32/int64/[n]byte/[]byte, date/timestamp(unit[:utc|local])/time(unit) on integers, time.Time, time.Duration and their pointers, uuid on [16]byte/string, enum, string, bytes, interval on [12]byte/parquet.Interval, geometry, geography, json on strings / byte slices / structs / maps / slices / numbers / map[string]any, json.RawMessage, json.Number, variant, delta/split/dict/plain and per-field codecs, `-`, `-,`, renamed and unexported fields (holding data), id(n), `optional` on every Go kind, parquet-key/parquet-value/parquet-element tags, byte arrays of 12 sizes, *map, []*struct, maps of lists / maps / structs, lists of >1024 elements; (3) `any` fields written with an explicit schema node (leaf of each physical type required/optional/repeated/LIST/optional LIST of optional; variant; map[string]any to required/optional groups; []any and []map[string]any to repeated groups and LISTs) at top level and below optional groups, repeated groups and LISTs, []any / map[string]any / map[string]string typed fields; (4) T with an explicit schema equal to SchemaOf(T), with the fields sorted (top level / every depth), optional<->required flipped, LIST<->repeated flipped, other physical / logical types. Values are generated along the schema: every nullable site (pointer, zero-able scalar, slice, map, interface) follows, inverts or ignores a per-row (and per-element) run pattern with runs of 1..130 crossing 64-row words; batch sizes 1..200 plus one single Write call of 513..1300 rows per type (quick tier: every other type, alternating with the seed; every other of those also from reused memory); each batch goes through the fourteen ingestion paths (whole batch or split into several Write calls; the typed and the reflection buffer additionally with the rows reversed through Swap before reading; the RowBuffer additionally read column by column: the page of each column chunk cut in two with Slice, every other part cloned, read 1, 2 or 3 values at a time, its level arrays compared with the levels of its values), and every case (quick tier: the corpus, the batches of the size table and every other of the single big Write calls) a second time from REUSED CALLER MEMORY: thirteen entry points (the eleven Write / WriteRows / WriteRowValues paths of the matrix plus RowBuffer[T].WriteRows and Buffer.WriteRows of rows deconstructed from the store) are each fed, with the same calls, from one reused backing store (the same []T / []*T / []any / []Row / []Value, the same byte regions behind byte slices and strings, arrays inline, pooled nested slices, maps and pointer targets refilled in place) that is overwritten with a poison pattern as soon as each call has returned and before the next batch is laid out over it, the rows handed to WriteRows / WriteRowValues included; predicate: identical (column, value, r, d) sequences per row on every path, the streams stored from reused (and since overwritten) caller memory exactly those of the same path on fresh memory, Reconstruct(Deconstruct(v)) = v up to nil/empty where Reconstruct is lossless; correspondence: Deconstruct streams = model shred_rows (= model shred_batch) on the harness' Go-value -> model-value mapping, model asm of the streams = the value. Plus a regression batch per repaired defect, six known findings pinned on fixed inputs, and the null-run sweep: single-word patterns with <= 3 runs at every in-word offset through the typed path on optional fields of every null-index kernel, compared with the pattern and with the model's scan. A case = (type, batch, split); non-trivial = at least 2 rows; distinct by type + JSON of the batch."
+	c.Res.Rule = "catalogue of 137 entries = 92 compiled struct types under SchemaOf(T) or one or more explicit schemas: (1) required / `optional` scalars of every kind, pointers, repeated and LIST slices, nested lists, slices and maps of structs, embedded and nested structs, optional groups with repeated fields and vice versa, 3 levels of nesting; (1b) depth x width of struct embedding (types_embed.go): fields promoted through 3 and through 7 levels of embedded structs (index paths of length 3, 5, 6, 7 = the lengths at which an appended []int has spare capacity), every embedded struct at offset 0 / none at offset 0, several embedded structs side by side at each level, innermost structs of 3..5 sibling fields (one type; every kind), the same embedding below a named struct, a pointer, a repeated group, a LIST, a map value and an optional group, under SchemaOf(T) and explicit schemas (equal / sorted / sorted at every depth); (2) every struct tag option of schema.go makeNodeOf: int(n)/uint(n) narrower, equal, wider and of the other signedness than the Go type, uintptr, decimal on int32/int64/[n]byte/[]byte, date/timestamp(unit[:utc|local])/time(unit) on integers, time.Time, time.Duration and their pointers, uuid on [16]byte/string, enum, string, bytes, interval on [12]byte/parquet.Interval, geometry, geography, json on strings / byte slices / structs / maps / slices / numbers / map[string]any, json.RawMessage, json.Number, variant, delta/split/dict/plain and per-field codecs, `-`, `-,`, renamed and unexported fields (holding data), id(n), `optional` on every Go kind, parquet-key/parquet-value/parquet-element tags, byte arrays of 12 sizes, *map, []*struct, maps of lists / maps / structs, lists of >1024 elements; (3) `any` fields written with an explicit schema node (leaf of each physical type required/optional/repeated/LIST/optional LIST of optional; variant; map[string]any to required/optional groups; []any and []map[string]any to repeated groups and LISTs) at top level and below optional groups, repeated groups and LISTs, []any / map[string]any / map[string]string typed fields; (4) T with an explicit schema equal to SchemaOf(T), with the fields sorted (top level / every depth), optional<->required flipped, LIST<->repeated flipped, other physical / logical types. Values are generated along the schema: every nullable site (pointer, zero-able scalar, slice, map, interface) follows, inverts or ignores a per-row (and per-element) run pattern with runs of 1..130 crossing 64-row words; batch sizes 1..200 plus one single Write call of 513..1300 rows per type (quick tier: every other type, alternating with the seed; every other of those also from reused memory); each batch goes through the fourteen ingestion paths (whole batch or split into several Write calls; the typed and the reflection buffer additionally with the rows reversed through Swap before reading; the RowBuffer additionally read column by column: the page of each column chunk cut in two with Slice, every other part cloned, read 1, 2 or 3 values at a time, its level arrays compared with the levels of its values), and every case (quick tier: the corpus, the batches of the size table and every other of the single big Write calls) a second time from REUSED CALLER MEMORY: thirteen entry points (the eleven Write / WriteRows / WriteRowValues paths of the matrix plus RowBuffer[T].WriteRows and Buffer.WriteRows of rows deconstructed from the store) are each fed, with the same calls, from one reused backing store (the same []T / []*T / []any / []Row / []Value, the same byte regions behind byte slices and strings, arrays inline, pooled nested slices, maps and pointer targets refilled in place) that is overwritten with a poison pattern as soon as each call has returned and before the next batch is laid out over it, the rows handed to WriteRows / WriteRowValues included; predicate: identical (column, value, r, d) sequences per row on every path, the streams stored from reused (and since overwritten) caller memory exactly those of the same path on fresh memory, Reconstruct(Deconstruct(v)) = v up to nil/empty where Reconstruct is lossless; correspondence: Deconstruct streams = model shred_rows (= model shred_batch) on the harness' Go-value -> model-value mapping, model asm of the streams = the value. Plus a regression batch per repaired defect, six known findings pinned on fixed inputs, and the null-run sweep: single-word patterns with <= 3 runs at every in-word offset through the typed path on optional fields of every null-index kernel, compared with the pattern and with the model's scan. A case = (type, batch, split); non-trivial = at least 2 rows; distinct by type + JSON of the batch."
 	t0 := time.Now()
 	debug.SetGCPercent(400)                    // the writers allocate their page buffers anew for every case
 	if pf := os.Getenv("C03_PROF"); pf != "" { // debugging aid
